@@ -15,7 +15,8 @@ MANIFEST = dict(
          "(leaving terminates as soon as the members have), SpawnTarget and the action property DetachedUntouched over "
          "all interleavings of task steps, releases and failures within the bounds; every edge is replayed into real "
          "tasks and after EVERY action the status of EVERY task (at gate / waiting / done / failed / cancelled) is "
-         "compared with the model.",
+         "compared with the model. Cross legs: one scope step by step with disposables and faults (ScopeLife.tla) and a "
+         "scope living inside a context stream whose generator spawns a task (Streams.tla: SpawnedSettled).",
     technique="TLA+ spec + TLC exhaustive model checking of task interleavings and failures; edge-complete graph replay "
               "into the implementation through a gated interpreter",
     design="5/C06")
@@ -62,6 +63,14 @@ def run(rep, work, tier, seed):
                    cfg_text(dict(life, NC=1, Bug="rollback_awaits_members"), invariants=life_invs + ["RollbackAbortsMembers"]),
                    ["RollbackAbortsMembers"])
     leg_r(rep, work, "ScopeLife", f"life_conf_{tier}", cfg_text(life, invariants=life_invs), ScopeLifeDriver, world=True)
+    # a scope that lives inside a context stream (Streams.tla): the generator spawns a task into the stream's scope; when
+    # the stream ends, is closed, or the pulling task is cancelled, that scope is left and the task has finished with it
+    from props.c11 import StreamsDriver
+    st_invs = ["TypeOK", "SpawnedSettled", "StreamScopeCompletes", "ConsumerIntact"]
+    st = dict(MaxItems=2 if tier == "quick" else 3, Bug="none")
+    leg_m(rep, work, "Streams", f"stream_mc_{tier}", cfg_text(st, invariants=st_invs),
+          expect_actions=["Pull", "Release", "EndSpawned", "CancelPull", "Close"])
+    leg_r(rep, work, "Streams", f"stream_conf_{tier}", cfg_text(st, invariants=st_invs), StreamsDriver, world=True)
     rep.assumptions += [
         "spawned coroutines are gated doubles that obey cancellation at once (a task that swallows cancellation keeps "
         "its scope waiting by design); 'blocking until released' = parked at its gate",
@@ -79,4 +88,7 @@ def replay(rep, record):
     if record.get("spec") == "ScopeLife":
         from props.scopelife_common import replay as life_replay
         return life_replay(rep, record)
+    if record.get("spec") == "Streams":
+        from props.c11 import replay as stream_replay
+        return stream_replay(rep, record)
     return _replay_tasks(rep, record)
